@@ -1,10 +1,81 @@
 """C09 - automatic mode is the most compact mode that can represent the input (DESIGN.md 4/C09)."""
+import random
 import sys
 import os
 
 sys.path.insert(0, os.path.dirname(os.path.dirname(os.path.abspath(__file__))))
 from checks.common import *          # noqa: F401,F403
-from checks import kconfirm
+from checks import kconfirm, c01
+from engine.mirsym import SliceRef
+
+V40_CAPS = {'d': (7089, 5596, 3993, 3057), 'A': (4296, 3391, 2420, 1852), 'B': (2953, 2331, 1663, 1273)}
+
+
+def job_long(job):
+    """best_encoding on a long input: `n` characters of class `cls` (digits / alphanumeric-only / byte-only), of which the
+    first, the last and 6 seed-chosen positions are symbolic within their class and one seed-chosen position may hold a
+    character of a wider class (symbolic choice): the answer must be the class of the widest character present"""
+    n, cls, seed = job
+    prog = worker_prog()
+    extra = worker_extra()
+    res = {'evaluations': 0, 'obligations': 0, 'discharged': 0, 'failures': [], 'nontrivial': [], 'samples': [],
+           'validation': {'cases': 0, 'disagreements': 0}, 'vacuity': 0}
+    rnd = random.Random(seed * 29 + n)
+    sym_pos = sorted({0, n - 1} | {rnd.randrange(n) for _ in range(6)}) if n else []
+    # two positions that may hold a character of the next wider class: one among the first 8, one anywhere
+    odds = sorted({rnd.randrange(min(n, 8)), rnd.randrange(n)}) if n else []
+    wider = {'d': 'A', 'A': 'B', 'B': 'B'}[cls]
+    picks = {i: T.var('wider_at_%d' % i, 1) for i in odds}
+    pick = T.or_many(list(picks.values())) if picks else 0
+    items = []
+    for i in range(n):
+        if i in picks:
+            a = c01.sym_char(i, cls)
+            b = c01.sym_char(i + 100000, wider)
+            items.append(T.ite(8, picks[i], b, a))
+        elif i in sym_pos:
+            items.append(c01.sym_char(i, cls))
+        else:
+            items.append(c01.concrete_char(rnd, cls))
+    I = M.Interp(prog)
+    buf = I.mk(list(items))
+    r = I.call_fn(prog.resolve('best_encoding'), [SliceRef(buf, 0, n)])
+    rank = {'d': 0, 'A': 1, 'B': 2}
+    want = T.ite(8, pick, rank[wider], rank[cls]) if n else 0
+    obl = [('automatic mode of %d characters of class %s (one position possibly of class %s)' % (n, cls, wider), T.eq(8, r, want) if r is not M.DEAD else 0)]
+    pan = [('%s@%s: %s' % (o.kind, o.where, o.msg[:40]), T.implies(T.and_many(list(o.pc)), o.cond)) for o in I.obligations]
+    solver = worker_solver(60000, 'z3-new', lut_mode='ite', logic='QF_BV')
+    syn, nsolv, fails, unk = discharge(solver, obl + pan, eval_search=4, chunk=8)
+    res['obligations'] = len(obl) + len(pan)
+    res['panic_obligations'] = len(pan)
+    res['evaluations'] = res['obligations']
+    res['discharged'] = res['obligations'] - len(fails) - len(unk)
+    res['nontrivial'] = ['long n=%d class %s #%d' % (n, cls, i) for i in range(len(obl))]
+    res['samples'] = [{'input': '%d characters of class %s' % (n, cls), 'free': '%d positions within their class, %d positions across two classes' % (len(sym_pos), len(odds))}]
+    if unk and not fails:
+        raise Inconclusive('solver unknown: %s' % unk[:1])
+    native = OV.Native(extra['native'])
+    for lab, model in fails[:1]:
+        env = dict(model or {})
+        for nm in T.all_vars():
+            env.setdefault(nm, 0)
+        data = bytes(x if type(x) is int else T.evaluate(x, env) for x in items)
+        ans = native.ask('best_encoding %s' % OV.hexs(data))
+        exp = 0 if all(0x30 <= c <= 0x39 for c in data) else (1 if all(chr(c) in iso.ALNUM for c in data) else 2)
+        confirmed = ans.startswith('PANIC') or (ans.isdigit() and int(ans) != exp)
+        res['failures'].append({'key': 'C09/classification', 'confirmed': confirmed, 'obligation': lab,
+                                'what': ('automatic mode for an input of %d characters (%r...) is %s, the most compact mode that can represent it is %s' % (
+                                    n, data[:12], ans if not ans.isdigit() else iso.MODES[int(ans)], iso.MODES[exp])) if confirmed else 'not reproduced: %s' % lab,
+                                'replay': {'request': 'best_encoding %s' % OV.hexs(data)[:400]}})
+    native.close()
+    res['vacuity'] = 1
+    q = solver_counts(solver)
+    q['syntactic'] = syn
+    res['queries'] = q
+    res['solver_time_s'] = solver.time_s
+    solver.close()
+    res.update(interp_stats(I))
+    return res
 
 
 def main(argv):
@@ -19,10 +90,18 @@ def main(argv):
         {'harness': 'c09_alnum_value_table', 'key': 'C09/value-table', 'confirm': kconfirm.alnum_value, 'raw': True,
          'symbolic': 'c: u8 free'},
     ]
-    chk.run_kani(specs, timeout=3000)
+    chk.run_kani(specs, timeout=900 if chk.tier == 'quick' else 3000)
+    # long inputs (engine M): lengths at and just beyond every V40 capacity of every mode and level, and a few in between
+    lens = sorted({c + d for caps in V40_CAPS.values() for c in caps for d in (0, 1)} | {25, 97, 255, 256, 1000, 7999})
+    if chk.tier == 'quick':
+        lens = [x for x in lens if x in (25, 97, 256, 1273, 2953, 2954, 4296, 4297, 7089, 7090)]
+    jobs = [(n_, cls, chk.seed) for n_ in lens for cls in 'dAB']
+    native_path = chk.ov.native(chk.features)
+    chk.jobs(job_long, jobs, extra={'native': native_path})
     chk.bounds += ['byte strings of every length 0..%d with every byte value at every position (length symbolic)' % n,
                    'value table / classifier agreement: all 256 byte values']
-    chk.outside += ['strings longer than %d bytes (the two-stage scan has no length-dependent behaviour, but that is an argument, not a verdict)' % n,
+    chk.bounds += ['long inputs at lengths %s: characters of one class, 8 positions symbolic within the class and two positions (one among the first 8) symbolic across two classes' % lens]
+    chk.outside += ['strings longer than %d bytes with more than 9 symbolic positions, and lengths other than the listed ones' % n,
                     'that the chosen mode does not alter characters is decided by C06/C01 in automatic mode']
     chk.assumptions += ['Kani/CBMC model of the compiled crate; unwinding assertions on']
     chk.finish()
